@@ -860,7 +860,17 @@ impl LdapConnAsync {
                     #[cfg(ldap3_verif)]
                     self.verif.branch(3);
                     let (id, (tag, controls)) = match resp {
-                        None => break,
+                        None => match mode {
+                            // The connection was closed under the one operation of this mode; fail
+                            // instead of handing back a connection which still holds its reply channel.
+                            LoopMode::SingleOp => {
+                                return Err(LdapError::from(io::Error::new(
+                                    io::ErrorKind::UnexpectedEof,
+                                    "connection closed",
+                                )))
+                            }
+                            LoopMode::Continuous => break,
+                        },
                         Some(Err(e)) => {
                             warn!("socket receive error: {}", e);
                             return Err(LdapError::from(e));
@@ -911,7 +921,10 @@ impl LdapConnAsync {
                 },
             };
             if let LoopMode::SingleOp = mode {
-                break;
+                // a message for nobody doesn't answer the operation we are here for
+                if self.resultmap.is_empty() {
+                    break;
+                }
             }
         }
         Ok(self)
